@@ -107,6 +107,23 @@ pub fn close_ratio(
     dnorm: &[f64],
     eps: f64,
 ) -> Result<(f64, f64, f64), String> {
+    close_ratio_k(v, v.kappa(), yw_col, a, sa, b, sb, dnorm, eps)
+}
+
+/// as `close_ratio`, with the condition number of the *kept* part supplied by the caller
+/// (designed rank-deficient states)
+#[allow(clippy::too_many_arguments)]
+pub fn close_ratio_k(
+    v: &View,
+    kappa: f64,
+    yw_col: &[f64],
+    a: &Snap,
+    sa: usize,
+    b: &Snap,
+    sb: usize,
+    dnorm: &[f64],
+    eps: f64,
+) -> Result<(f64, f64, f64), String> {
     let n = v.n;
     let (ca, cb) = match (&a.coeff, &b.coeff) {
         (Some(x), Some(y)) => (x, y),
@@ -117,7 +134,6 @@ pub fn close_ratio(
             return Err(format!("coefficients present {} vs {}", x.is_some(), y.is_some()));
         }
     };
-    let kappa = v.kappa();
     let s1 = v.sigma1();
     let ynorm = la::norm2(yw_col);
     let c_a = ca.col(sa);
